@@ -197,7 +197,7 @@ KTBases(t) ==
     [] t \in {"RsaSsaPkcs1PublicKey", "RsaSsaPkcs1PrivateKey", "RsaSsaPssPublicKey", "RsaSsaPssPrivateKey",
               "JwtRsaSsaPkcs1PublicKey", "JwtRsaSsaPkcs1PrivateKey", "JwtRsaSsaPssPublicKey", "JwtRsaSsaPssPrivateKey"} -> RsaBases
     [] t \in {"MlDsaPublicKey", "MlDsaPrivateKey"} -> <<"ML_DSA_65", "ML_DSA_87">>
-    [] t \in {"SlhDsaPublicKey", "SlhDsaPrivateKey"} -> <<"SLH_DSA_SHA2_128S">>
+    [] t \in {"SlhDsaPublicKey", "SlhDsaPrivateKey"} -> <<"SLH_DSA_SHA2_128F", "SLH_DSA_SHA2_128S", "SLH_DSA_SHAKE_192F">>
     [] t \in {"HpkePublicKey", "HpkePrivateKey"} -> HpkeBases
     [] t \in {"EciesAeadHkdfPublicKey", "EciesAeadHkdfPrivateKey"} -> <<"ECIES_P256_AES128_GCM", "ECIES_P256_AES128_CTR_HMAC_SHA256">>
     [] t \in {"JwtEcdsaPublicKey", "JwtEcdsaPrivateKey"} -> <<"JWT_ES256", "JWT_ES384", "JWT_ES512">>
@@ -218,17 +218,18 @@ KTPrefix(t) == IF t \in {"HmacPrfKey", "HkdfPrfKey", "AesCmacPrfKey", "JwtRsaSsa
 -----------------------------------------------------------------------------
 (* Meaning of the observed field values.  A row <<quantity, path, conversion, guardPath, guardValue>> says:    *)
 (* the quantity is the value at path (bytes fields: their LENGTH; "#bits": bit length of the big-endian         *)
-(* integer; "#hex": hex of the integer) provided the string observed at guardPath equals guardValue.            *)
+(* integer; "#hex": hex of the integer).  Rows about a serialized inner message (holder.value>field) apply      *)
+(* when the holder's type URL is guardValue and its value parses as that message.                               *)
 S(q, p, conv) == <<q, p, conv, "", "">>
-SG(q, p, conv, gp, gv) == <<q, p, conv, gp, gv>>
+SG(q, holder, field, conv, gv) == <<q, holder \o ".value>" \o field, conv, holder, gv>>
 RsaSem(pre) == {S("modulusBits", pre \o "n#bits", "int"), S("e", pre \o "e#hex", "hex")}
 EciesSem(pre) ==
-  LET dem == pre \o "params.dem_params.aead_dem." IN
-  {SG("aesKeySize", dem \o "value>key_size", "int", dem \o "type_url#str", "AesGcmKey"),
-   SG("sivKeySize", dem \o "value>key_size", "int", dem \o "type_url#str", "AesSivKey"),
-   SG("aesKeySize", dem \o "value>aes_ctr_key_format.key_size", "int", dem \o "type_url#str", "AesCtrHmacAeadKey"),
-   SG("hmacKeySize", dem \o "value>hmac_key_format.key_size", "int", dem \o "type_url#str", "AesCtrHmacAeadKey"),
-   SG("hmacTagSize", dem \o "value>hmac_key_format.params.tag_size", "int", dem \o "type_url#str", "AesCtrHmacAeadKey")}
+  LET dem == pre \o "params.dem_params.aead_dem" IN
+  {SG("aesKeySize", dem, "key_size", "int", "AesGcmKey"),
+   SG("sivKeySize", dem, "key_size", "int", "AesSivKey"),
+   SG("aesKeySize", dem, "aes_ctr_key_format.key_size", "int", "AesCtrHmacAeadKey"),
+   SG("hmacKeySize", dem, "hmac_key_format.key_size", "int", "AesCtrHmacAeadKey"),
+   SG("hmacTagSize", dem, "hmac_key_format.params.tag_size", "int", "AesCtrHmacAeadKey")}
 KTSem(t) ==
   CASE t \in {"AesGcmKey", "AesGcmSivKey", "AesCmacKey", "AesCmacPrfKey"} -> {S("aesKeySize", "key_value", "int")}
     [] t = "AesSivKey" -> {S("sivKeySize", "key_value", "int")}
@@ -239,9 +240,9 @@ KTSem(t) ==
     [] t = "HkdfPrfKey" -> {S("hkdfKeySize", "key_value", "int")}
     [] t = "AesGcmHkdfStreamingKey" -> {S("aesKeySize", "params.derived_key_size", "int")}
     [] t = "AesCtrHmacStreamingKey" -> {S("aesKeySize", "params.derived_key_size", "int"), S("hmacTagSize", "params.hmac_params.tag_size", "int")}
-    [] t = "PrfBasedDeriverKey" -> {SG("hkdfKeySize", "prf_key.value>key_value", "int", "prf_key.type_url#str", "HkdfPrfKey"),
-                                    SG("hmacKeySize", "prf_key.value>key_value", "int", "prf_key.type_url#str", "HmacPrfKey"),
-                                    SG("aesKeySize", "prf_key.value>key_value", "int", "prf_key.type_url#str", "AesCmacPrfKey")}
+    [] t = "PrfBasedDeriverKey" -> {SG("hkdfKeySize", "prf_key", "key_value", "int", "HkdfPrfKey"),
+                                    SG("hmacKeySize", "prf_key", "key_value", "int", "HmacPrfKey"),
+                                    SG("aesKeySize", "prf_key", "key_value", "int", "AesCmacPrfKey")}
     [] t = "EcdsaPublicKey"  -> {S("ecdsaCurve", "params.curve", "curve"), S("ecdsaHash", "params.hash_type", "hash")}
     [] t = "EcdsaPrivateKey" -> {S("ecdsaCurve", "public_key.params.curve", "curve"), S("ecdsaHash", "public_key.params.hash_type", "hash")}
     [] t \in {"RsaSsaPkcs1PublicKey", "RsaSsaPssPublicKey", "JwtRsaSsaPkcs1PublicKey", "JwtRsaSsaPssPublicKey"} -> RsaSem("")
@@ -258,7 +259,9 @@ Conv(c, o, p) == CASE c = "int" -> ObsInt(o, p) [] c = "hash" -> HashOfNumber(Ob
 \* obs: what the submitted KeyData carried ("@type": its type URL, "@parsed": its value parses as that message)
 KTDescribe(o) ==
   LET t == o["@type"]
-      rows == IF o["@parsed"] = 1 THEN {r \in KTSem(t) : r[4] = "" \/ ObsStr(o, r[4]) = r[5]} ELSE {}
+      rows == IF o["@parsed"] = 1
+              THEN {r \in KTSem(t) : r[4] = "" \/ (ObsStr(o, r[4] \o ".type_url#str") = r[5] /\ ObsInt(o, r[4] \o ".value>@parsed") = 1)}
+              ELSE {}
   IN [q \in {r[1] : r \in rows} \cup {"type"} |->
         IF q = "type" THEN t ELSE LET r == CHOOSE r \in rows : r[1] = q IN Conv(r[3], o, r[2])]
 ===============================================================================
